@@ -15,6 +15,7 @@ func main() {
 		// DOT
 		vlib.Group{Name: "dot-strings", Gen: genDotStrings},
 		vlib.Group{Name: "dot-shapes", Gen: genDotShapes},
+		vlib.Group{Name: "dot-ports", Gen: genDotPorts},
 		vlib.Group{Name: "dot-subgraphs", Gen: genDotSubgraphs},
 		vlib.Group{Name: "dot-tokens", Gen: genDotTokens},
 		vlib.Group{Name: "dot-mutate", Gen: genDotMutate},
@@ -40,6 +41,7 @@ func main() {
 		// RDF canonicalisation
 		vlib.Group{Name: "rdf-c14n-invariance", Gen: genRDFInvariance},
 		vlib.Group{Name: "rdf-iso-pairs", Gen: genRDFIsoPairs},
+		vlib.Group{Name: "rdf-c14n-large", Gen: genRDFLarge},
 		vlib.Group{Name: "rdf-quad-iso", Gen: genRDFQuadIso},
 		vlib.Group{Name: "rdf-dedup", Gen: genRDFDedup},
 		// JSON graph formats
